@@ -82,3 +82,10 @@ check(
     "Reference conversion is UnitDatabase.Convert (C01/C02); amounts within float noise of a limit but not equal to it may get either verdict (consistently); NaN limits/defaults are outside the quantifier.",
     "4/C12",
 )
+check(
+    "C13",
+    "runtime monitoring: operand-frozen monitor - deep snapshots (container contents, fraction parts) of every operand around every boundary call and of every pool member plus its caller-owned container after every step of random operation histories; copy/pickle equality oracle field by field",
+    "Held on hundreds (thorough: thousands) of 150-250 step histories over pools of ~45 objects of every class and container kind (simple, derived with exponents != 1, empty, unknown with/without caption; list/tuple/float and int ndarray/list of tuples): arithmetic in both operand orders, comparisons, conversions through 7 entry points, validation, formatting, copies, pickles, ChangingIndex, FromScalars, ChangeScalars, Curve; copy/deepcopy/CreateCopy()/pickle results equal and field-identical to the original.",
+    "Explicit setters and class-level configuration are not operations on operands; result/operand aliasing is not flagged; no NaN in pools.",
+    "4/C13",
+)
